@@ -502,3 +502,99 @@ def per_member_values(ctx: Ctx, rule: str) -> None:
             if not bad:
                 ctx.ok(rule, f"{f.qname}: loop over `{itx[:60]}` (line {lp.lineno}) carries no per-member local into the next iteration")
     ctx.floor(rule, n, 14, "loops over the members")
+
+
+# ---------------------------------------------------------------------------------------------------------------- predicate helpers
+def pred_helper_expr(ctx: Ctx, f: Func, call: ast.AST) -> Optional[ast.AST]:
+    """`call` is a call of a predicate helper that the rules do not know by name - a method of f's class (`self.h(...)`) that is not among the frozen
+    known functions, or a function nested in f (`h(...)`): its body, if it consists of `if`/`return` only, as ONE boolean expression over the caller's
+    names (if-conversion: `if c: return a` + rest  ==  (c and a) or (not c and rest)), with the arguments substituted for the parameters."""
+    if not isinstance(call, ast.Call):
+        return None
+    g_node, params = None, None
+    if isinstance(call.func, ast.Attribute) and norm(call.func.value) == "self" and f.cls:
+        from ..inline import known_functions
+        try:
+            m = ctx.prog.method(ctx.prog.cls(f.cls, f.module), call.func.attr)
+        except Exception:
+            m = None
+        if m is not None and not (known_functions() and m.qname in known_functions()):
+            g_node, params = m.node, m.params[1:]
+    elif isinstance(call.func, ast.Name):
+        for x in ast.walk(f.node):
+            if isinstance(x, ast.FunctionDef) and x is not f.node and x.name == call.func.id:
+                g_node, params = x, [a.arg for a in x.args.args]
+    if g_node is None:
+        return None
+
+    def conv(stmts: List[ast.stmt]) -> Optional[ast.AST]:
+        if not stmts:
+            return None
+        st, rest = stmts[0], stmts[1:]
+        if isinstance(st, ast.Expr) and isinstance(st.value, ast.Constant):
+            return conv(rest)  # docstring
+        if isinstance(st, ast.Return):
+            return st.value if st.value is not None else ast.Constant(value=None)
+        if isinstance(st, ast.If):
+            a = conv(st.body + rest)
+            b = conv(st.orelse + rest)
+            if a is None or b is None:
+                return None
+            return ast.BoolOp(op=ast.Or(), values=[ast.BoolOp(op=ast.And(), values=[st.test, a]),
+                                                   ast.BoolOp(op=ast.And(), values=[ast.UnaryOp(op=ast.Not(), operand=st.test), b])])
+        return None
+    e = conv(list(g_node.body))
+    if e is None:
+        return None
+    binding = {}
+    for i, a in enumerate(call.args):
+        if i < len(params):
+            binding[params[i]] = a
+    for k in call.keywords:
+        if k.arg in params:
+            binding[k.arg] = k.value
+
+    class Sub(ast.NodeTransformer):
+        def visit_Name(self, n):
+            return binding.get(n.id, n) if isinstance(n.ctx, ast.Load) else n
+    import copy
+    return ast.fix_missing_locations(Sub().visit(copy.deepcopy(e)))
+
+
+class Touched(Exception):
+    """the evaluation reached the member list of a folder that has none"""
+
+
+def folder_pred_eval(e: ast.AST, files_none: bool, skip: bool, selected: bool):
+    """value of a folder-selection condition in the model (the folder's member list is None? / skipping allowed? / some member selected?), with Python's
+    short-circuit order.  Raises Touched when the member list is iterated although it is None, Unknown for a construct outside the model."""
+    if isinstance(e, ast.Constant):
+        return e.value
+    if isinstance(e, ast.BoolOp):
+        if isinstance(e.op, ast.And):
+            v = True
+            for x in e.values:
+                v = folder_pred_eval(x, files_none, skip, selected)
+                if not v:
+                    return v
+            return v
+        v = False
+        for x in e.values:
+            v = folder_pred_eval(x, files_none, skip, selected)
+            if v:
+                return v
+        return v
+    if isinstance(e, ast.UnaryOp) and isinstance(e.op, ast.Not):
+        return not folder_pred_eval(e.operand, files_none, skip, selected)
+    nt = q.is_none_test(e)
+    if nt is not None and isinstance(nt[0], ast.Attribute) and nt[0].attr == "files":
+        return files_none == nt[1]
+    if isinstance(e, ast.Name) and e.id == "skip_notarget":
+        return skip
+    if isinstance(e, ast.Call) and dotted(e.func) == "any" and e.args and "target_filepath" in norm(e.args[0]) and ".files" in norm(e.args[0]):
+        if files_none:
+            raise Touched(norm(e))
+        return selected
+    if isinstance(e, ast.IfExp):
+        return folder_pred_eval(e.body if folder_pred_eval(e.test, files_none, skip, selected) else e.orelse, files_none, skip, selected)
+    raise Unknown(norm(e))
